@@ -54,6 +54,7 @@ LOCS = {
     "eq": (15.0, 3.0, 32633, 6933),  # equatorial Africa, just north of the equator; EASE-2 (cylindrical EA)
     "no": (15.0, 68.0, 32633, 3035),  # northern Scandinavia (high latitude)
     "sa": (-69.0, -33.0, 32719, 6933),  # Chile/Argentina: western + southern hemisphere
+    "s9": (15.0, -8.0, 32733, 6933),  # Angola, 8S: UTM northing 9.1e6 (slice far-origin only)
     # continental families (UTM code only used to have one; never a target there)
     "EU": (10.0, 52.0, 32632, 3035),
     "AU": (133.27, -26.78, 32753, 3577),
@@ -1383,6 +1384,115 @@ def run_limits(case):
 
 
 # ---------------------------------------------------------------------------------------------
+# grids far from the CRS origin: explicit output resolution x pixel index of the edges x phase of every edge
+# ---------------------------------------------------------------------------------------------
+# (source kind, location, source pixel in CRS units, the other-CRS target kind).  |coordinate| / output pixel (the index
+# of the grid line an edge is snapped to) runs from ~2e4 (10 m pixels, output 25 x coarser) to ~1.5e8 (0.1 m Mercator)
+FAR = (
+    ("utmz", "au", 0.5, "ea"),  # EPSG:32755, E 6.8e5 N 6.1e6: sub-metre aerial imagery, southern-hemisphere northing
+    ("utmz", "au", 10.0, "ea"),  # ... Sentinel-2 style pixels at the same place
+    ("utmz", "no", 1.0, "ea"),  # EPSG:32633, N 7.5e6 (68N)
+    ("utmz", "s9", 0.25, "merc"),  # EPSG:32733, N 9.1e6 (8S: just below the 1e7 false northing)
+    ("ea", "eu", 2.0, "utmz"),  # EPSG:3035, false origin 4.3e6 / 3.2e6
+    ("ea", "au", 5.0, "utmz"),  # EPSG:3577, y = -3.9e6 (negative coordinates)
+    ("laea*", "eu", 1.0, "ea"),  # PROJ string (no EPSG code), false origin 1e6 / 1e6
+    ("merc", "au", 0.5, "utmz"),  # EPSG:3857, x = 1.6e7, y = -4.2e6
+    ("merc", "sa", 0.1, "utmz"),  # EPSG:3857, x = -7.7e6, y = -3.9e6 (both negative), 0.1 m pixels
+    ("deg", "au", 1e-5, "deg2"),  # EPSG:4326, lon 147 lat -35, ~1 m pixels
+    ("deg", "sa", 4.5e-6, "deg2"),  # EPSG:4326, lon -69 lat -33 (both negative), ~0.5 m pixels
+)
+FAR_SHAPE_Q = ((24, 32),)
+FAR_SHAPE_T = FAR_SHAPE_Q + ((1, 1),)
+# output pixel / source pixel: finer, equal, coarser; whole and fractional ratios
+FAR_RATIO_Q = (0.5, 1.0, 1.5, 2.5, 4.0, 6.0, 10.0, 25.0)
+FAR_RATIO_T = FAR_RATIO_Q + (1 / 3, 0.8, 2.0, 3.0, 5.0, 7.5, 16.0, 60.0)
+# where the chosen edge of the buffered footprint (what is handed to the snapping) lies, as a fraction of an OUTPUT
+# pixel past a line of the requested (anchored) output grid: on the line, a little inside / outside each tol of the
+# alphabet, and every eighth of a pixel
+FAR_PHASE_Q = (0.0, 0.004, -0.004, 0.02, -0.02, 0.06, -0.06, 0.15, -0.15, 0.25, 0.375, 0.5, 0.625, 0.75, 0.875, 0.125)
+FAR_PHASE_T = FAR_PHASE_Q + tuple(k / 32 for k in range(1, 32, 2)) + (
+    1e-6, -1e-6, 1e-3, -1e-3, 0.009, -0.009, 0.011, -0.011, 0.09, -0.09, 0.11, -0.11, 0.3, -0.3, 0.45, -0.45)
+FAR_EDGE = ("lo", "hi")  # the phase is given to the low (west / south) or to the high (east / north) edges
+
+
+def far_ratio_class(ratio):
+    return "finer" if ratio < 1 else "equal" if ratio == 1 else "coarser<4" if ratio < 4 else "coarser>=4"
+
+
+def far_src(fi, shape, ratio, edge, phase, axy):
+    """north-up raster of family FAR[fi] whose buffered footprint has its low (or high) x and y edges ``phase`` output
+    pixels past a line of the output grid {(k + a) * R}; R = ratio * source pixel.  -> (Src, R)"""
+    kind, loc, s, _ = FAR[fi]
+    epsg = kind_epsg(kind, loc)
+    lon, lat = LOCS[loc][:2]
+    if unit_class(epsg) == "degree":
+        X0, Y0 = lon, lat
+    else:
+        X0, Y0 = fresh(4326, epsg).transform(lon, lat)
+        X0, Y0 = float(round(X0)), float(round(Y0))
+    ny, nx = shape
+    Rp = ratio * s
+    B = BUF * s
+    ax, ay = axy
+    ex = (math.floor(X0 / Rp) + ax + phase) * Rp  # the chosen edges of the buffered footprint
+    ey = (math.floor(Y0 / Rp) + ay + phase) * Rp
+    if edge == "lo":
+        x0, y1 = ex + B, ey + B + ny * s
+    else:
+        x0, y1 = ex - B - nx * s, ey - B
+    S = Src()
+    S.key, S.epsg, S.kind, S.orient, S.shape, S.p = ("far", fi, shape, ratio, edge, phase, axy), epsg, kind, "nu", shape, s
+    S.extent = f"far-origin:{loc}:px={s!r}:{far_ratio_class(ratio)}"
+    S.coef = (s, 0.0, float(x0), 0.0, -s, float(y1))
+    S.gbox = GeoBox(shape, Affine(*S.coef), crs_spec(epsg))
+    S._memo = {}
+    return S, Rp
+
+
+def gen_far(tier):
+    t = tier == "thorough"
+    fam = range(len(FAR))
+    ratios = FAR_RATIO_T if t else FAR_RATIO_Q
+    # snapped grids: own CRS and another CRS x ratio x which edge x phase x anchor x tol
+    yield from itertools.product(("cog",), fam, ("own",), FAR_SHAPE_Q, ratios, FAR_EDGE,
+                                 FAR_PHASE_T if t else FAR_PHASE_Q, ANCHOR3 if t else ("default", 0.25), (False,),
+                                 TOL_T if t else TOL2)
+    if t:
+        yield from itertools.product(("cog",), fam, ("own",), FAR_SHAPE_T[1:], ratios, FAR_EDGE, FAR_PHASE_Q, ANCHOR3, (False,), TOL_T)
+    yield from itertools.product(("cog",), fam, ("other",), FAR_SHAPE_Q, ratios, FAR_EDGE, FAR_PHASE_Q, ("default", 0.25),
+                                 (False,), TOL2)
+    # snapping off (tight / floating anchor): the origin stays, the pixel count is rounded
+    yield from itertools.product(("cog",), fam, ("own", "other"), FAR_SHAPE_Q, ratios, ("lo",),
+                                 FAR_PHASE_Q if t else (0.0, 0.004, -0.02, 0.5), ("default",), (True,), TOL_T if t else TOL2)
+    if t:
+        yield from itertools.product(("cog",), fam, ("own", "other"), FAR_SHAPE_Q, ratios, ("lo",), FAR_PHASE_Q, ("floating",),
+                                     (False,), TOL_T)
+        yield from itertools.product(("to_crs",), fam, ("own", "other"), FAR_SHAPE_Q, FAR_RATIO_Q, FAR_EDGE, FAR_PHASE_Q,
+                                     ("default",), (False,), (0.01,))
+
+
+def run_far(case):
+    api, fi, which, shape, ratio, edge, phase, aenc, tight, tol = case
+    kind, loc, s, other = FAR[fi]
+    axy = anchor_arg(aenc)[1]
+    S, Rp = far_src(fi, shape, ratio, edge, phase, (0.0, 0.0) if (tight or axy is None) else axy)
+    dst_enc = kind if which == "own" else other
+    req = ("res", ("abs", Rp))
+    crs_arg, want, kw = make_kw(S, loc, dst_enc, req, aenc, tight, tol)
+    r = R()
+    g = call_api(api, S.gbox, crs_arg, kw)
+    judge(r, S, loc, dst_enc, req, aenc, tight, tol, g, call_txt(api, S, crs_arg, kw))
+    # label: decade of the largest grid-line index of the result, ratio class, then the judged clauses
+    if isinstance(g, GeoBox) and g.affine.a != 0 and g.affine.e != 0:
+        idx = max(abs(g.affine.c / g.affine.a), abs(g.affine.f / g.affine.e), 1.0)
+        dec = f"1e{int(math.floor(math.log10(idx)))}"
+    else:
+        dec = "?"
+    r.outcome = f"far:{which}:index~{dec}:{far_ratio_class(ratio)}:" + ":".join(r.outcome.split(":")[-4:])
+    return r
+
+
+# ---------------------------------------------------------------------------------------------
 # the same request in other spellings, on every entry point
 # ---------------------------------------------------------------------------------------------
 SPELL_SRC = (("utmz", "eu", "tile", (48, 64), "nu"), ("deg", "au", "tile", (48, 64), "rot"), ("merc", "sa", "regional", (32, 32), "nu"))
@@ -1744,6 +1854,12 @@ def slices(tier):
         S("area-limits", gen_limits, run_limits,
           "lon/lat rasters touching a UTM zone edge, the equator, 84N / 80S, the antimeridian, the Mercator / EASE latitude "
           "limits, the poles, the whole globe; outside the target's area of use nothing is demanded"),
+        S("far-origin", gen_far, run_far,
+          "explicit output resolution (0.5 ... 25 x the source pixel, whole and fractional ratios) x 11 source families whose "
+          "edges sit 2e4 ... 1.5e8 output pixels from the CRS origin (0.1 - 10 m pixels at UTM northings 6.1e6 / 7.5e6 / 9.1e6, "
+          "LAEA / Albers false origins and negative coordinates, Mercator at +-1e7, 1e-5 / 4.5e-6 degree grids at lon 147 / -69) "
+          "x own CRS | another CRS x low | high edges of the buffered footprint placed at 16 phases of an output pixel "
+          "relative to the requested grid (on a line, just inside / outside every tol, every eighth) x anchor x tol; tight too"),
         S("spellings", gen_spell, run_spell,
           "one request in every accepted spelling of crs / source crs / resolution / shape / anchor / tol / round_resolution "
           "on the function, the method and the xarray accessor: same answer as the plain spelling through the function"),
@@ -1784,6 +1900,10 @@ def main(ctx):
         "tight": [False, True],
         "tol": list(TOL_T if t else TOL2),
         "shape_requests": [repr(s[1]) for s in (SHAPE_REQ_T if t else SHAPE_REQ_Q)],
+        "far_origin": {"families(kind, location, source pixel, other target)": [list(f) for f in FAR],
+                       "output_px_over_source_px": list(FAR_RATIO_T if t else FAR_RATIO_Q),
+                       "edge_phase_output_px": list(FAR_PHASE_T if t else FAR_PHASE_Q), "edges": list(FAR_EDGE),
+                       "shapes": [list(v) for v in (FAR_SHAPE_T if t else FAR_SHAPE_Q)]},
     }
     ctx.assumptions = [
         "the source raster is the six binary64 affine coefficients handed to GeoBox; sample points: every pixel corner "
@@ -1842,6 +1962,10 @@ def main(ctx):
         "lazy-state: caches found in odc.geo.{crs,geom,geobox,overlap,math,gcp,types} (cachetools / functools wrappers, "
         "cachetools.Cache objects; not the CRS construction / transformer caches) are emptied before the history and "
         "before the reference call",
+        "far-origin: the phase is that of the footprint grown by the documented 0.9 source pixels (the box that is snapped) "
+        "in the SOURCE CRS: exact for the own-CRS target, for the other-CRS target it only makes the edges sweep the output "
+        "pixel; the oracle is unchanged (every source pixel corner, identity / fresh pyproj, inside up to tol * output pixel); "
+        "pyproj's transformer between a CRS and itself returns its input unchanged (no-op pipeline)",
         "mirrored-sources: axis-aligned GeoBoxes whose columns run east-west and/or rows south-north are source GeoBoxes "
         "like any other (the quantifier's 'north-up and rotated' is read as 'any orientation'); kept in their own slice, "
         "finding keys carry the orientation (mx / su / r180)",
